@@ -63,7 +63,7 @@ def main():
     d = sys.argv[1].rstrip("/")
     mode = sys.argv[sys.argv.index("--props") + 1] if "--props" in sys.argv else "all"
     tasks = []
-    for p in sorted(glob.glob(os.path.join(d, "C*", "r*.diff"))):
+    for p in sorted(glob.glob(os.path.join(d, "C*", "[re]*.diff"))):
         if os.path.getsize(p) == 0:
             continue
         own = os.path.basename(os.path.dirname(p))
